@@ -192,4 +192,125 @@ theorem parseSubgoal_struct_unify (po : POps) (f : Nat) {T rhs : Text} (htrim : 
   cases parseTerm po f T <;> simp [Res.bind]
   cases parseTerm po f rhs <;> simp [makeGoal, txt, str, bipNames, TermList.ofList]
 
+/-! ### the comparison infixes -/
+
+/-- the six infixes of a subgoal: the text of the operator, what `check_infix` calls it, the name of the built-in predicate -/
+inductive Cmp where
+  | unify | equal | lt | le | gt | ge
+  deriving DecidableEq
+
+def Cmp.text : Cmp → Text
+  | .unify => ['='] | .equal => ['=', '='] | .lt => ['<'] | .le => ['<', '='] | .gt => ['>'] | .ge => ['>', '=']
+def Cmp.kind : Cmp → Infix
+  | .unify => .unify | .equal => .equal | .lt => .lt | .le => .le | .gt => .gt | .ge => .ge
+def Cmp.name : Cmp → String
+  | .unify => "unify" | .equal => "equal" | .lt => "less_than" | .le => "less_than_or_equal" | .gt => "greater_than"
+  | .ge => "greater_than_or_equal"
+
+/-- the scanner finds the infix that follows the text, and nothing inside the text -/
+theorem checkInfix_struct_cmp (op : Cmp) {T rhs : Text} (hfree : infixFree T = true) (hnext : parenNext T = true) (hr : rhs ≠ []) :
+    checkInfix (T ++ ' ' :: op.text ++ ' ' :: rhs) = (op.kind, T.length + 1) := by
+  have hskip := (skipAfter_of_parenNext T hnext).1
+  obtain ⟨a, b, hrhs⟩ : ∃ a b, rhs = a :: b := by
+    cases rhs with
+    | nil => exact absurd rfl hr
+    | cons a b => exact ⟨a, b, rfl⟩
+  unfold checkInfix
+  generalize hL : (T ++ ' ' :: op.text ++ ' ' :: rhs).length = L
+  have hLge : T.length + 4 ≤ L := by
+    rw [← hL, hrhs]; cases op <;> simp [Cmp.text] <;> omega
+  have hl : 0 + T.length + 2 < L := by omega
+  have hshape : T ++ ' ' :: op.text ++ ' ' :: rhs = T ++ (' ' :: (op.text ++ ' ' :: rhs)) := by simp
+  rw [hshape]
+  obtain ⟨prev', h⟩ := infixLoop_struct L T (' ' :: (op.text ++ ' ' :: rhs)) 0 '#' false hfree hnext hl
+  simp only [modeOf, hskip] at h
+  rw [h]
+  have hlen : ¬ (0 + T.length + 1 + 2 ≥ L) := by omega
+  have hlen0 : ¬ (0 + T.length + 2 ≥ L) := by omega
+  have hblank : infixLoop L (' ' :: (op.text ++ ' ' :: rhs)) (0 + T.length) prev' none =
+      infixLoop L (op.text ++ ' ' :: rhs) (0 + T.length + 1) ' ' none := by
+    by_cases hp : (prev' != ' ') = true
+    · simp only [infixLoop, show ((' ' : Char) == '"') = false from by decide, show ((' ' : Char) == '(') = false from by decide,
+        Bool.false_eq_true, if_false, hp, if_true]
+    · simp only [infixLoop, show ((' ' : Char) == '"') = false from by decide, show ((' ' : Char) == '(') = false from by decide,
+        Bool.false_eq_true, if_false, hp, hlen0, show ((' ' : Char) == '<') = false from by decide,
+        show ((' ' : Char) == '>') = false from by decide, show ((' ' : Char) == '=') = false from by decide]
+  rw [hblank]
+  cases op <;>
+    simp [Cmp.text, Cmp.kind, infixLoop, hlen, show ((' ' : Char) != ' ') = false from by decide] <;> omega
+
+/-- C20, A STRUCTURED TEXT AS THE LEFT OPERAND OF ANY INFIX (`=`, `==`, `<`, `<=`, `>`, `>=`): the subgoal `T op R` is the built-in
+    predicate of the operator applied to `parse_term T` and `parse_term R` -/
+theorem parseSubgoal_struct_cmp (po : POps) (f : Nat) (op : Cmp) {T rhs : Text} (htrim : trim T = T) (hne : T ≠ [])
+    (hfree : infixFree T = true) (hnext : parenNext T = true) (hrtrim : trim rhs = rhs) (hr : rhs ≠ []) :
+    parseSubgoal po (f + 1) (T ++ ' ' :: op.text ++ ' ' :: rhs) =
+      (parseTerm po f T).bind fun l => (parseTerm po f rhs).bind fun r =>
+        .ok (.bip op.name (some (.cons l (.cons r .nil)))) := by
+  generalize hS : T ++ ' ' :: op.text ++ ' ' :: rhs = S
+  have hSlen : S.length = T.length + 1 + op.text.length + 1 + rhs.length := by rw [← hS]; simp; omega
+  have hoplen : op.text.length = 1 ∨ op.text.length = 2 := by cases op <;> simp [Cmp.text]
+  have htr : trim S = S := by
+    rw [← hS]
+    cases hT : T with
+    | nil => exact absurd hT hne
+    | cons a t =>
+      apply trim_of_ends (by simp)
+      · intro b hb; simp at hb; subst hb; exact trim_head_nonws htrim a (by rw [hT]; rfl)
+      · intro b hb
+        have : (a :: t ++ ' ' :: op.text ++ ' ' :: rhs) = (a :: t ++ ' ' :: op.text ++ [' ']) ++ rhs := by simp
+        rw [this, List.getLast?_append] at hb
+        cases hl : rhs.getLast? with
+        | none => simp [List.getLast?_eq_none_iff] at hl; exact absurd hl hr
+        | some z =>
+          rw [hl] at hb; simp at hb; subst hb
+          exact trim_last_nonws hrtrim z hl
+  have hci : checkInfix S = (op.kind, T.length + 1) := by rw [← hS]; exact checkInfix_struct_cmp op hfree hnext hr
+  simp only [parseSubgoal, htr, hci]
+  have hne' : S.isEmpty = false := by rw [← hS]; cases T <;> rfl
+  have hmem : ' ' ∈ S := by rw [← hS]; simp
+  have hkw : ∀ k : String, ' ' ∉ k.toList → (S == txt k) = false := by
+    intro k hk
+    cases hb : (S == txt k) with
+    | false => rfl
+    | true =>
+      have : S = txt k := by simpa using hb
+      rw [this] at hmem; exact absurd hmem hk
+  have hkind : (op.kind != Infix.none) = true := by cases op <;> decide
+  simp only [hne', Bool.false_eq_true, if_false, hkw "!" (by decide), hkw "fail" (by decide), hkw "nl" (by decide),
+    Bool.or_false, hkind, if_true]
+  have hs1 : slice S 0 (T.length + 1) = .ok (T ++ [' ']) := by
+    unfold slice
+    have : (0 ≤ T.length + 1 ∧ T.length + 1 ≤ S.length) := by omega
+    simp only [this, and_self, if_true, List.drop_zero]
+    rw [← hS, show T ++ ' ' :: op.text ++ ' ' :: rhs = (T ++ [' ']) ++ (op.text ++ ' ' :: rhs) from by simp]
+    rw [List.take_left' (by simp)]
+  -- the right operand: what follows the two characters after the blank (the operator, and its blank when it has one character)
+  have hs2 : ∃ R', slice S (T.length + 1 + 2) S.length = .ok R' ∧ trim R' = rhs := by
+    unfold slice
+    have : (T.length + 1 + 2 ≤ S.length ∧ S.length ≤ S.length) := by
+      obtain ⟨a, b, hrhs⟩ : ∃ a b, rhs = a :: b := by
+        cases rhs with
+        | nil => exact absurd rfl hr
+        | cons a b => exact ⟨a, b, rfl⟩
+      rw [hSlen, hrhs]; simp; omega
+    simp only [this, and_self, if_true, List.take_length]
+    rw [← hS]
+    cases op
+    all_goals simp only [Cmp.text]
+    · exact ⟨rhs, by rw [show T ++ ' ' :: ['='] ++ ' ' :: rhs = (T ++ [' ', '=', ' ']) ++ rhs from by simp, List.drop_left' (by simp)], hrtrim⟩
+    · refine ⟨' ' :: rhs, by rw [show T ++ ' ' :: ['=', '='] ++ ' ' :: rhs = (T ++ [' ', '=', '=']) ++ (' ' :: rhs) from by simp, List.drop_left' (by simp)], ?_⟩
+      rw [show (' ' :: rhs) = [' '] ++ rhs from rfl, trim_ws_prefix [' '] (by intro c hc; simp at hc; subst hc; decide), hrtrim]
+    · exact ⟨rhs, by rw [show T ++ ' ' :: ['<'] ++ ' ' :: rhs = (T ++ [' ', '<', ' ']) ++ rhs from by simp, List.drop_left' (by simp)], hrtrim⟩
+    · refine ⟨' ' :: rhs, by rw [show T ++ ' ' :: ['<', '='] ++ ' ' :: rhs = (T ++ [' ', '<', '=']) ++ (' ' :: rhs) from by simp, List.drop_left' (by simp)], ?_⟩
+      rw [show (' ' :: rhs) = [' '] ++ rhs from rfl, trim_ws_prefix [' '] (by intro c hc; simp at hc; subst hc; decide), hrtrim]
+    · exact ⟨rhs, by rw [show T ++ ' ' :: ['>'] ++ ' ' :: rhs = (T ++ [' ', '>', ' ']) ++ rhs from by simp, List.drop_left' (by simp)], hrtrim⟩
+    · refine ⟨' ' :: rhs, by rw [show T ++ ' ' :: ['>', '='] ++ ' ' :: rhs = (T ++ [' ', '>', '=']) ++ (' ' :: rhs) from by simp, List.drop_left' (by simp)], ?_⟩
+      rw [show (' ' :: rhs) = [' '] ++ rhs from rfl, trim_ws_prefix [' '] (by intro c hc; simp at hc; subst hc; decide), hrtrim]
+  obtain ⟨R', hs2', htR⟩ := hs2
+  simp only [hs1, hs2', Res.bind_ok]
+  rw [parseTerm_congr_trim po f (a := T ++ [' ']) (b := T) (by rw [trim_ws_suffix]),
+    parseTerm_congr_trim po f (a := R') (b := rhs) (by rw [htR, hrtrim])]
+  cases parseTerm po f T <;> simp [Res.bind]
+  cases parseTerm po f rhs <;> cases op <;> simp [Cmp.kind, Cmp.name, makeGoal, txt, str, bipNames, TermList.ofList]
+
 end Suiron.Parse
